@@ -137,7 +137,7 @@ def make_world(rng, graph_enc, flavour, conc, nfiles, d, big=False):
     return w, store, files
 
 
-def snapshot_run(run, rng, seed, flavour, conc, fail, quick, big=False, fuzz=False, sites=None, nfiles=None):
+def snapshot_run(run, rng, seed, flavour, conc, fail, quick, big=False, fuzz=False, sites=None, nfiles=None, trace_files=('replicat/repository.py',)):
     with harness.scratch() as d:
         w, store, files = make_world(rng, bool(seed % 2), flavour, conc, nfiles or rng.randrange(1, 5), d, big=big)
         # sequential reference: concurrency 1, no perturbation
@@ -155,7 +155,7 @@ def snapshot_run(run, rng, seed, flavour, conc, fail, quick, big=False, fuzz=Fal
         be = instrument(w.backend(gate=LoggingGate(ctl, random.Random(seed), fail_at=fail)), ctl)
         install(ctl)
         try:
-            with (linefuzz.delay_sites(sites, 0.02) if sites else linefuzz.fuzz(seed, linefuzz.SNAPSHOT) if fuzz else contextlib.nullcontext()):
+            with (linefuzz.delay_sites(sites, 0.02, trace_files) if sites else linefuzz.fuzz(seed, linefuzz.SNAPSHOT) if fuzz else contextlib.nullcontext()):
                 o, hung = run_watchdog(lambda: w.command('a', observed(lambda r: r.snapshot(paths=[d / 'src']), slots, conc), backend=be, concurrent=conc), 30 if sites else 12)
         finally:
             uninstall()
@@ -197,9 +197,9 @@ def check_restored(tgt, files, d):
     return got == want
 
 
-def restore_run(run, rng, seed, flavour, conc, fail, quick, fuzz=False, sites=None):
+def restore_run(run, rng, seed, flavour, conc, fail, quick, fuzz=False, sites=None, trace_files=('replicat/repository.py',), nfiles=None):
     with harness.scratch() as d:
-        w, store, files, file_ids, expected, snap = restore_prepare(rng, bool(seed % 2), flavour, conc, rng.randrange(1, 5), d)
+        w, store, files, file_ids, expected, snap = restore_prepare(rng, bool(seed % 2), flavour, conc, nfiles or rng.randrange(1, 5), d)
         ctl = sched.Controller(perturb_seed=seed)
         slots = {}
         be = instrument(w.backend(gate=LoggingGate(ctl, random.Random(seed), fail_at=fail)), ctl)
@@ -207,8 +207,8 @@ def restore_run(run, rng, seed, flavour, conc, fail, quick, fuzz=False, sites=No
         tgt.mkdir()
         install(ctl)
         try:
-            with (linefuzz.delay_sites(sites, 0.02) if sites else linefuzz.fuzz(seed, linefuzz.RESTORE) if fuzz else contextlib.nullcontext()):
-                o, hung = run_watchdog(lambda: w.command('a', observed(lambda r: r.restore(path=tgt), slots, conc), backend=be, concurrent=conc))
+            with (linefuzz.delay_sites(sites, 0.02, trace_files) if sites else linefuzz.fuzz(seed, linefuzz.RESTORE) if fuzz else contextlib.nullcontext()):
+                o, hung = run_watchdog(lambda: w.command('a', observed(lambda r: r.restore(path=tgt), slots, conc), backend=be, concurrent=conc), 30)
         finally:
             uninstall()
         ok = bool(o and o.ok)
@@ -402,6 +402,13 @@ def main(run):
         for rep in range(5 if quick else 40):
             k += 1
             traces.append(snapshot_run(run, rng, run.seed * 1000 + 1700 + k, 'plain', 1 if rep % 4 != 3 else 2, None, quick, sites=slow + ss, nfiles=1 + rep % 2))
+    # the connection slots are an asyncio.Queue that worker THREADS hand slots back to: the loop thread is held inside Queue.get / put
+    # (between its look at the queue and the registration of the waiter) while a thread returns a slot
+    import asyncio.queues as _aq
+    qsites = linefuzz.call_sites([_aq.Queue.get.__code__, _aq.Queue.put.__code__], ('get', 'put'), with_callee=True)
+    qs = [(n, o, 0.03) for n, o, c in qsites if c in ('empty', 'full')]      # after the look at the queue, before the waiter is registered
+    for rep in range(4 if quick else 24):
+        traces.append(restore_run(run, rng, run.seed * 1000 + 1900 + rep, 'plain', 1 if rep % 4 != 3 else 2, None, quick, sites=qs, trace_files=('asyncio/queues.py',), nfiles=2))
     run.add(call_sites_snapshot=len(ssites), call_sites_restore=len(rsites), call_sites_delayed=per * ((len(groups_s) if not quick else min(14, len(groups_s))) + (len(groups_r) if not quick else min(8, len(groups_r)))))
     # ... and without a failure: the producer is blocked on the full queue in the middle of a file while chunks of that file complete
     for i in range(3 if quick else 30):
